@@ -6,11 +6,17 @@ import ClapProofs.C02Attr
 namespace Clap.C02
 open Clap Parser Bytes
 
-/-- a level whose positionals each take one value and need no special ordering rules -/
+/-- a positional that takes exactly one value and has no special role -/
+def SinglePos (a : Arg) : Prop :=
+  a.isMultiple = false ∧ a.isMultipleValues = false ∧ a.last = false ∧ a.trailingVarArg = false ∧ a.terminator = none
+
+instance (a : Arg) : Decidable (SinglePos a) := by unfold SinglePos; infer_instance
+
+/-- a level whose positionals need no special ordering rules: no `allow_missing_positional`, and only the last
+positional (the one with the highest index) may take several values -/
 structure SimplePos (c : Cmd) : Prop where
   noMissing : c.settings.allowMissingPositional = false
-  single : ∀ a ∈ c.args, (a.isPositional = true ∨ a.index.isSome = true) →
-    a.isMultiple = false ∧ a.isMultipleValues = false ∧ a.last = false ∧ a.trailingVarArg = false ∧ a.terminator = none
+  lastOnly : ∀ a ∈ c.args, a.isPositional = true → a.isMultiple = true → a.index = some c.positionalCount
 
 theorem correctPosCounter_simple {c : Cmd} (sp : SimplePos c) (ls : LoopSt) (peek : Option Bytes)
     (htr : ls.trailing = false) : correctPosCounter c ls peek = ls.posCounter := by
@@ -21,7 +27,8 @@ theorem correctPosCounter_simple {c : Cmd} (sp : SimplePos c) (ls : LoopSt) (pee
     obtain ⟨a, ha, h2⟩ := h
     unfold Cmd.positionals at ha
     obtain ⟨ha1, ha2⟩ := List.mem_filter.1 ha
-    have := (sp.single a ha1 (Or.inl ha2)).1
+    simp only [Bool.and_eq_true] at h2
+    have := sp.lastOnly a ha1 ha2 h2.1
     rw [this] at h2
     simp at h2
   unfold correctPosCounter
@@ -30,7 +37,7 @@ theorem correctPosCounter_simple {c : Cmd} (sp : SimplePos c) (ls : LoopSt) (pee
 /-- **a positional value**: in the ground state a token that does not look like a flag is left pending, verbatim,
 for the positional whose turn it is (after resolving what was pending before), and the counter moves on -/
 theorem loop_pos_step (c : Cmd) (wf : C01.WF c) (sp : SimplePos c) (similar : Bytes → Bytes → Bool)
-    (v : Bytes) (hnsv : NoSubTok c v) (a : Arg) (hv : Bytes.startsWith v [dash] = false)
+    (v : Bytes) (hnsv : NoSubTok c v) (a : Arg) (hsingle : SinglePos a) (hv : Bytes.startsWith v [dash] = false)
     (ls : LoopSt) (rest : List Bytes) (p : P) (htr : ls.trailing = false) (hst : ls.st = .valuesDone)
     (hget : c.getPos ls.posCounter = some a) :
     loop c similar ls (v :: rest) p =
@@ -41,8 +48,7 @@ theorem loop_pos_step (c : Cmd) (wf : C01.WF c) (sp : SimplePos c) (similar : By
           { q with pending := some { id := a.id, ident := some .index, rawVals := [v], trailingIdx := none } } := by
   have hsc := hnsv ls.validArgFound
   obtain ⟨hvesc, hvlong, hvshort⟩ := noDash_lex hv
-  obtain ⟨hm, hk⟩ := C01.getKey_mem hget
-  obtain ⟨hmul, hmv, hlast, htva, hterm⟩ := sp.single a hm (Or.inr (by rw [C01.keys_pos_index hk]; rfl))
+  obtain ⟨hmul, hmv, hlast, htva, hterm⟩ := hsingle
   have hterm' : isTerminator a v = false := by simp [isTerminator, hterm]
   have hcp := correctPosCounter_simple sp ls rest.head? htr
   rw [loop]
@@ -89,7 +95,7 @@ there is a positional left to take it -/
 def okAll (c : Cmd) : List Occ → Nat → Prop
   | [], _ => True
   | .opt o :: rest, pc => o.ok c ∧ okAll c rest pc
-  | .pos v :: rest, pc => NoSubTok c v ∧ Bytes.startsWith v [dash] = false ∧ (c.getPos pc).isSome = true ∧ okAll c rest (pc + 1)
+  | .pos v :: rest, pc => NoSubTok c v ∧ Bytes.startsWith v [dash] = false ∧ (∃ a, c.getPos pc = some a ∧ SinglePos a) ∧ okAll c rest (pc + 1)
 
 theorem resolvePending_some' (c : Cmd) (q : P) (a : Arg) (i : Ident) (v : Bytes) (hq : q.pending = none)
     (hfind : c.find a.id = some a) :
@@ -122,13 +128,15 @@ theorem loop_occurrences (c : Cmd) (wf : C01.WF c) (sp : SimplePos c) (similar :
     rw [List.flatMap_cons]
     cases oc with
     | pos v =>
-      obtain ⟨hnsv, hv, hsome, hok'⟩ := hok
-      cases hget : c.getPos ls.posCounter with
-      | none => rw [hget] at hsome; simp at hsome
-      | some a =>
+      obtain ⟨hnsv, hv, ⟨a, hget, hsingle⟩, hok'⟩ := hok
+      cases hget' : c.getPos ls.posCounter with
+      | none => rw [hget] at hget'; cases hget'
+      | some a' =>
+        have : a = a' := by rw [hget] at hget'; cases hget'; rfl
+        subst this
         obtain ⟨hfind, _⟩ := C01.getPos_spec wf hget
         simp only [Occ.spell, List.singleton_append]
-        rw [loop_pos_step c wf sp similar v hnsv a hv ls _ p htr hst hget]
+        rw [loop_pos_step c wf sp similar v hnsv a hsingle hv ls _ p htr hst hget]
         cases hr : resolvePending c p with
         | mk q r =>
           cases r with
@@ -227,14 +235,15 @@ example :
       [{ id := [102], long := some [102], action := some .setTrue, numVals := some ⟨0, some 0⟩ },
        { id := [97], index := some 1 }, { id := [98], index := some 2 }] [] []
     c.subs = [] ∧ SimplePos c ∧ okAll c [.pos [120], .opt ⟨[102], none, false⟩, .pos [121]] 1 := by
-  refine ⟨rfl, ⟨rfl, ?_⟩, ⟨noSubTok_of_no_subs _ rfl _, by decide, by decide, ⟨⟨noSubTok_of_no_subs _ rfl _, by decide, by decide, by decide, _, rfl, by decide⟩, ?_⟩,
-    noSubTok_of_no_subs _ rfl _, by decide, by decide, trivial⟩⟩
-  · intro a ha hp
+  refine ⟨rfl, ⟨rfl, ?_⟩, ⟨noSubTok_of_no_subs _ rfl _, by decide, ⟨_, rfl, by decide⟩,
+    ⟨⟨noSubTok_of_no_subs _ rfl _, by decide, by decide, by decide, _, rfl, by decide⟩, ?_⟩,
+    noSubTok_of_no_subs _ rfl _, by decide, ⟨_, rfl, by decide⟩, trivial⟩⟩
+  · intro a ha hp hm
     simp [Cmd.args] at ha
     rcases ha with rfl | rfl | rfl
     · simp [Arg.isPositional] at hp
-    · decide
-    · decide
+    · exact absurd hm (by decide)
+    · exact absurd hm (by decide)
   · intro h; cases h
 
 end Clap.C02
